@@ -43,8 +43,10 @@ def _init_worker(engine_factory, known_keys):
     signal.signal(signal.SIGALRM, _on_alarm)
 
 
-def run_spec(engine, spec, known_keys, timeout=RUN_TIMEOUT_S):
+def run_spec(engine, spec, known_keys, timeout=None):
     """Execute one spec with a wall-clock guard; never raises for engine-level problems."""
+    if timeout is None:
+        timeout = getattr(engine, "RUN_TIMEOUT_S", RUN_TIMEOUT_S)
     signal.signal(signal.SIGALRM, _on_alarm)
     signal.alarm(timeout)
     faulthandler.dump_traceback_later(timeout + 30, exit=True)
